@@ -73,6 +73,8 @@ package utils
 //@   ensures {C16} [s3-naming-rules] ret0 ==> 3 <= len(bucket) && len(bucket) <= 63 && lowerAlnum(bucket[0]) && lowerAlnum(bucket[len(bucket) - 1]) \
 //@        && (forall i int :: 0 <= i && i < len(bucket) ==> lowerAlnum(bucket[i]) || bucket[i] == '.' || bucket[i] == '-')
 //@   ensures {C16} [no-adjacent-periods] ret0 ==> !strings.Contains(bucket, "..")
+//@   ensures {C16} [no-reserved-prefix-or-suffix] ret0 ==> !strings.HasPrefix(bucket, "xn--") && !strings.HasPrefix(bucket, "sthree-") && !strings.HasPrefix(bucket, "amzn-s3-demo-") \
+//@        && !strings.HasSuffix(bucket, "-s3alias") && !strings.HasSuffix(bucket, "--ol-s3") && !strings.HasSuffix(bucket, ".mrap") && !strings.HasSuffix(bucket, "--x-s3") && !strings.HasSuffix(bucket, "--table-s3")
 
 // constructors of the hashing readers allocate and return; they touch nothing the caller can see
 //@ func NewHashReader
